@@ -57,6 +57,46 @@ class Stub:
         return out
 
 
+_FAKE_SOFFICE = r"""#!/bin/sh
+# stand-in for soffice used by the C18 harness; behaviour = suffix of the script name
+mode="${0##*-}"
+if [ "$1" = "--version" ]; then echo "LibreOffice 24.8.3.2 0123456789abcdef"; exit 0; fi
+fmt=""; out=""; inp=""
+while [ $# -gt 0 ]; do
+  case "$1" in
+    --convert-to) fmt="$2"; shift 2;;
+    --outdir) out="$2"; shift 2;;
+    --*|-env:*) shift;;
+    *) inp="$1"; shift;;
+  esac
+done
+stem=$(basename "$inp"); stem="${stem%.*}"
+case "$mode" in
+  ok) { printf 'CONVERTED:'; cat "$inp"; } > "$out/$stem.$fmt"; exit 0;;
+  fail) echo "conversion failed" >&2; exit 1;;
+  failafter) { printf 'CONVERTED:'; cat "$inp"; } > "$out/$stem.$fmt"; exit 1;;
+  nooutput) exit 0;;
+esac
+exit 2
+"""
+REAL_MODES = ("real_ok", "real_fail", "real_failafter", "real_nooutput")
+
+
+def fake_soffice(mode):
+    """Path of an executable that the library's own LibreOfficeConverter accepts (answers --version) and that converts
+    by prefixing the input (ok), fails (fail), writes the output and fails (failafter) or writes nothing (nooutput)."""
+    d = os.path.join(repo.VERIF, ".work", "c18-bin")
+    os.makedirs(d, exist_ok=True)
+    p = os.path.join(d, "soffice-" + mode.split("_", 1)[1])
+    if not os.path.exists(p):
+        tmp = p + f".{os.getpid()}"
+        with open(tmp, "w") as f:
+            f.write(_FAKE_SOFFICE)
+        os.chmod(tmp, 0o755)
+        os.replace(tmp, p)
+    return p
+
+
 def snapshot(root):
     s = {}
     for p in sorted(pathlib.Path(root).rglob("*")):
@@ -108,7 +148,12 @@ def run_export(make_doc, method, stub_mode, pre, fault_at=None, fault_cls=Fault,
         if pre_bytes is not None:
             with open(target, "wb") as f:
                 f.write(pre_bytes)
-        stub = Stub(stub_mode) if stub_mode not in (None, "default") else None
+        stub = Stub(stub_mode) if stub_mode not in (None, "default") and stub_mode not in REAL_MODES else None
+        real = None
+        if stub_mode in REAL_MODES:  # the library's own converter class driving a stand-in executable
+            from rtflite.convert import LibreOfficeConverter
+
+            real = LibreOfficeConverter(executable_path=fake_soffice(stub_mode))
         if prelude is not None:
             with contextlib.redirect_stdout(io.StringIO()):
                 prelude(doc, box.out)
@@ -137,6 +182,8 @@ def run_export(make_doc, method, stub_mode, pre, fault_at=None, fault_cls=Fault,
             try:
                 if method == "rtf":
                     doc.write_rtf(target)
+                elif real is not None:
+                    getattr(doc, "write_" + method)(target, converter=real)
                 elif stub is None:
                     getattr(doc, "write_" + method)(target)
                 else:
@@ -148,7 +195,8 @@ def run_export(make_doc, method, stub_mode, pre, fault_at=None, fault_cls=Fault,
                 sys.settrace(None)
         after = snapshot(box.root)
         return {"result": res, "before": before, "after": after, "ncalls": n[0], "sites": sites, "captured": captured,
-                "stub_output": (b"CONVERTED:" + stub.seen_input) if stub is not None and stub.seen_input is not None else None,
+                "stub_output": ((b"CONVERTED:" + stub.seen_input) if stub is not None and stub.seen_input is not None else
+                                (b"CONVERTED:" + captured[-1].encode("utf-8")) if real is not None and captured else None),
                 "target_rel": os.path.relpath(target, box.root), "fired": fired, "pre_bytes": pre_bytes}
     finally:
         tempfile.tempdir = old_tmp
